@@ -11,6 +11,7 @@ import ast
 import hashlib
 import os
 
+_LINES = {}
 DEFAULT_SRC = os.environ.get("VERIF_SRC", "/repo/src")
 
 
@@ -27,7 +28,8 @@ class FuncInfo:
             else "method" if cls else "function"
         )
         self.memo = any(d in ("lru_cache", "functools.lru_cache", "cache", "functools.cache") for d in self.decorators)
-        seg = ast.get_source_segment(source, node) or ""
+        lines = _LINES.setdefault(id(source), source.splitlines())
+        seg = "\n".join(lines[node.lineno - 1:node.end_lineno])
         self.sha = hashlib.sha256(seg.encode()).hexdigest()[:16]
         self.lineno = node.lineno
         self.params = [a.arg for a in node.args.posonlyargs + node.args.args]
